@@ -49,6 +49,10 @@ CLAIMED = {
    text="Proof for all 64 squares and all 2^64 occupancies: calcRook/BishopAttacks equal the coordinate ray walk (loops unrolled 7 with unwinding assertions); the magic tables are proved filled by the package initialiser (loop invariants over the carry-rippler subset enumeration, pointwise in an arbitrary (square, occupancy)), using per-square no-destructive-collision and mask-irrelevance lemmas over the constant tables of the working tree, hence RookMoves/BishopMoves == ray walk for every occupancy; king/knight tables and pawn shift formulas equal the set-wise geometric definitions, which are linked to the coordinate definitions by lemmas; initInBetween is proved to fill InBetween[a][b] (ends disregarded) with exactly the squares strictly between aligned squares and nothing otherwise (4 nested loop invariants, inner walk unrolled). A mechanical SSA scan shows the tables have no other writers.",
    note="Trusted: coordinate definitions in spec/geom.smt2 (walkDir, kingAtt, knightAtt, pawnAtt, between); Go runs init before use. Termination of the init loops is not proved.",
    ref="DESIGN.md section 5 C12"),
+ "C20": dict(
+   text="Proof of the arithmetic core for all inputs: the Feistel network maps [0, 2^bits) into itself and is injective on it for every width 1..64 and any round function (two-copy lemma over the real body with the round function uninterpreted), shuffleIndex returns a value below n (0 for n <= 1) by cycle walking; the iterator bodies of Batches and Chunks hand consecutive, non-empty, in-range ranges to yield whose cursors advance by exactly one step (callback contract), i.e. they tile the index range resp. the batch; the line manifest built by NewChunker records, for every line returned by the reader, exactly its physical extent in the file, blank lines included (ghost file position, assumed contract of bufio.Reader.ReadSlice). The last obligation found defect F5, repaired by a fix: commit.",
+   note="Assumed (documented library behaviour): bufio.Reader.ReadSlice, os.Open, os.File.ReadAt, slices.SortFunc. Not under contract in this revision: Chunker.Open (that the i-th collected address is manifest[shuffleIndex(start+i)]), Chunk.Read's slicing, and the composition of 'result is the first iterate below n' with the Lean cycle-walking lemma (spec/lean/Walk.lean) into the permutation statement.",
+   ref="DESIGN.md section 5 C20"),
  "C14": dict(
    text="Proof for all 2^64 values of every clock field and both colours: timedMode/softLimit/hardLimit are verified against contracts stating the property's clauses (positive, within remaining time, margin kept, move time respected) and a two-copy lemma shows the results depend only on the mover's own clock and the move time. Bit-vector semantics, so int64 overflow of 4*soft is covered.",
    note="Assumes go/ssa faithfulness and solver soundness. The goroutine in handleGo that passes hardLimit to time.NewTimer is not verified (concurrency is outside the technique); only the three functions that compute the budget are.",
